@@ -63,15 +63,24 @@ def handle : Handler := fun cmd args =>
       -- <steps of the code as it is> <steps of the loop before /repo commit 9704a60> <delimiters>
       -- <delimiter characters> <no odd match: 1/0>
       pure s!"{optNat (emSteps true ds)} {optNat (emSteps false ds)} {ds.length} {sumCur ds} {if noOddB ds then 1 else 0}"
-  | "c06dl", [h] => some do
-      let b ← hexArg h
-      let ev := dlEvents b
-      let allFail := ev.all fun e => e.ranOut
-      -- <dollar-scan steps> <executed openers> <every scan ran to the end: 1/0> <cdSteps of the pieces between the openers>
-      pure s!"{dlSteps b} {ev.length} {if allFail then 1 else 0} {cdSteps (cdPieces b.length (ev.map (·.dpos)))}"
+  | "c06dl", [mc, md, h] => some do
+      let b0 ← hexArg h
+      -- the paragraph content is right-trimmed before the inlines are parsed
+      let b := (b0.reverse.dropWhile (· == 0x20)).reverse
+      let mc := mc == "1"
+      let md := md == "1"
+      let ev := dlEvents mc md b
+      let evOld := dlEventsOld mc md b
+      let rej := dlCost (ev.filter (·.rejected))
+      -- the memo-less abstraction against the memo-less byte-level model (code-dollar openers only, all ran out)
+      let absOk := if !md && evOld.all (fun e => e.ranOut) then
+          (if cdStepsOld (cdPieces b.length (evOld.map (·.dpos))) == dlCost evOld then 1 else 0) else 2
+      -- <dollar-scan steps, code as it is> <before /repo 657287d> <executed scans> <steps of the rejected `$` scans>
+      -- <text length> <cdStepsOld(pieces) == dlStepsOld: 1/0, 2 = not applicable>
+      pure s!"{dlCost ev} {dlCost evOld} {ev.length} {rej} {b.length} {absOk}"
   | "c06cd", [n, p] => some do
       match n.toNat?, p.toNat? with
-      | some n, some p => pure (toString (cdSteps (List.replicate n p)))
+      | some n, some p => pure (toString (cdStepsOld (List.replicate n p)))
       | _, _ => .error "bad-args"
   | _, _ => none
 
